@@ -1,7 +1,191 @@
-import DefconModel.Spec.Layer
+/-
+C07 — Lazy loading is transparent.
+
+Theorems about M-Layer (`DefconModel/Layer.lean`, the executable model of the glyph bookkeeping of
+`Lib/defcon/objects/layer.py`).  `abs s` is the abstract content of a layer (what a user who reads
+everything sees); every query and every operation is shown to depend on the state only through
+`abs s`, whatever has been loaded, deleted, renamed, re-added or saved before.
+-/
+import DefconModel.Lemmas.Layer
+
 namespace DefconModel.Props.C07
 open DefconModel DefconModel.Layer
 
-theorem placeholder : abs {} "A" = none := by decide
+/-- A freshly opened layer is well formed and shows exactly the glyph set's contents. -/
+theorem opened_good (disk : List (String × GRec)) (hk : (AL.keys disk).Nodup)
+    (hr : ∀ p ∈ disk, p.2.unicodes.Nodup) :
+    Good (opened disk) ∧ ∀ k, abs (opened disk) k = AL.get? disk k := by
+  have habs : ∀ k, abs (opened disk) k = AL.get? disk k := by
+    intro k; simp [abs, opened]
+  refine ⟨⟨?_, ?_, ?_⟩, habs⟩
+  · constructor
+    · exact hk
+    · simp [opened, AL.keys]
+    · simpa [opened, AL.keys] using hk
+    · simp [opened]
+    · intro m hm; simp [opened] at hm
+    · intro m hm; simp [opened] at hm
+    · intro k
+      rw [habs]
+      simp only [opened]
+      constructor
+      · intro hm
+        have : k ∈ AL.keys disk := by simpa [AL.keys] using hm
+        cases hg : AL.get? disk k with
+        | some v => rfl
+        | none =>
+          exfalso
+          simp only [AL.keys, List.mem_map] at this
+          obtain ⟨⟨k', v⟩, hp, rfl⟩ := this
+          rw [AL.get?_of_mem_nodup hk hp] at hg
+          simp at hg
+      · intro hs
+        cases hg : AL.get? disk k with
+        | none => simp [hg] at hs
+        | some v => simpa [AL.keys] using AL.mem_keys_of_get? hg
+    · intro k r hl; simp [opened] at hl
+  · exact uniInv_none _
+  · intro n r hn
+    rw [habs] at hn
+    exact hr _ (AL.mem_of_get? hn)
+
+/-- Reading a glyph is invisible: the abstract content is unchanged (and the invariants hold). -/
+theorem load_invisible (s s' : State) (n : String) (r : GRec) (h : Good s)
+    (hg : getItem s n = .ok (s', r)) : Good s' ∧ (∀ k, abs s' k = abs s k) ∧ abs s n = some r :=
+  let ⟨a, b, c, _⟩ := getItem_spec h hg
+  ⟨a, b, c⟩
+
+/-- Reading fails exactly for names the layer does not contain. -/
+theorem load_fails_iff_absent (s : State) (n : String) (h : Good s) :
+    (∃ e, getItem s n = .error e) ↔ abs s n = none := getItem_error_iff h.wf
+
+/-- Every operation commutes with the abstraction: its effect on the abstract content — and
+whether it is rejected — is a function of the abstract content alone (`specStep` never looks at
+what is loaded, scheduled for deletion or on disk).  Covers reading, creating, replacing,
+inserting, deleting (read or never read, on disk or not), renaming, unicode assignment, other
+edits, in-place save, and first access to the unicode data. -/
+theorem op_commutes (s : State) (op : Op) (h : Good s) (hop : OpOK (abs s) op) :
+    Good (stepTotal s op) ∧ ∀ k, abs (stepTotal s op) k = specTotal (abs s) op k :=
+  step_refines op h hop
+
+/-- … hence so does every operation sequence. -/
+theorem run_commutes (s : State) (ops : List Op) (h : Good s) (hops : OpsOK (abs s) ops) :
+    Good (run s ops) ∧ ∀ k, abs (run s ops) k = specRun (abs s) ops k :=
+  run_refines s ops h hops
+
+/-- Lazy loading is transparent: two layers with the same abstract content — nothing read, some
+glyphs read, all read, or a memory-only twin with no glyph set at all — still have the same
+abstract content after any common operation sequence. -/
+theorem lazy_transparent (s1 s2 : State) (ops : List Op) (h1 : Good s1) (h2 : Good s2)
+    (heq : ∀ k, abs s1 k = abs s2 k) (hops : OpsOK (abs s1) ops) :
+    ∀ k, abs (run s1 ops) k = abs (run s2 ops) k := by
+  have hfe : abs s1 = abs s2 := funext heq
+  intro k
+  rw [(run_refines s1 ops h1 hops).2 k, (run_refines s2 ops h2 (hfe ▸ hops)).2 k, hfe]
+
+/-! ### every query is a function of the abstract content -/
+
+/-- `keys()`, `in`, `len`, iteration -/
+theorem keys_exact (s : State) (h : Good s) (n : String) : n ∈ visible s ↔ (abs s n).isSome :=
+  mem_visible_iff h.wf n
+
+theorem keys_nodup (s : State) (h : Good s) : (visible s).Nodup :=
+  (List.filter_sublist).nodup h.wf.keysNodup
+
+/-- `componentReferences` : base `b` is referenced by `n` iff `n`'s record lists `b` -/
+theorem componentReferences_exact (s : State) (h : Good s) (b n : String) :
+    (b, n) ∈ componentReferences s ↔ ∃ r, abs s n = some r ∧ b ∈ r.comps := by
+  rw [componentReferences_eq]
+  simp only [List.mem_flatMap, List.mem_map, Prod.mk.injEq]
+  constructor
+  · rintro ⟨⟨k, r⟩, hp, b', hb, rfl, rfl⟩
+    exact ⟨r, (mem_visRecs_iff h.wf k r).mp hp, hb⟩
+  · rintro ⟨r, hr, hb⟩
+    exact ⟨(n, r), (mem_visRecs_iff h.wf n r).mpr hr, b, hb, rfl, rfl⟩
+
+/-- `imageReferences` -/
+theorem imageReferences_exact (s : State) (h : Good s) (f n : String) :
+    (f, n) ∈ imageReferences s ↔ ∃ r, abs s n = some r ∧ r.image = some f := by
+  rw [imageReferences_eq]
+  simp only [List.mem_filterMap, Option.map_eq_some_iff, Prod.mk.injEq]
+  constructor
+  · rintro ⟨⟨k, r⟩, hp, f', hf, rfl, rfl⟩
+    exact ⟨r, (mem_visRecs_iff h.wf k r).mp hp, hf⟩
+  · rintro ⟨r, hr, hf⟩
+    exact ⟨(n, r), (mem_visRecs_iff h.wf n r).mpr hr, f, hf, rfl, rfl⟩
+
+/-- Full statement for `glyphsWithOutlines`: membership depends on the abstract content only. -/
+def OutlinesTransparent : Prop :=
+  ∀ s1 s2 : State, Good s1 → Good s2 → (∀ k, abs s1 k = abs s2 k) →
+    ∀ n, n ∈ glyphsWithOutlines s1 ↔ n ∈ glyphsWithOutlines s2
+
+/-- It holds where the two outline criteria agree on every glyph … -/
+theorem glyphsWithOutlines_exact_partial (s : State) (h : Good s) (hc : Coherent (abs s)) (n : String) :
+    n ∈ glyphsWithOutlines s ↔ ∃ r, abs s n = some r ∧ r.outlineLoaded = true := by
+  unfold glyphsWithOutlines
+  simp only [List.mem_append, List.mem_map, List.mem_filter, decide_eq_true_eq]
+  constructor
+  · rintro (⟨⟨k, v⟩, ⟨hp, hs, ho⟩, rfl⟩ | ⟨⟨k, v⟩, ⟨hp, hnl, hs, ho⟩, rfl⟩)
+    · have := abs_of_loaded (AL.get?_of_mem_nodup h.wf.loadedKeys hp)
+      exact ⟨v.1, this, ho⟩
+    · have hnl' : AL.get? s.loaded k = none := (AL.contains_false_iff _ _).mp (by simpa [isLoaded] using hnl)
+      have hab : abs s k = some v := by
+        rw [abs_of_not_loaded hnl']; simp only at hs; simp [hs, AL.get?_of_mem_nodup h.wf.diskKeys hp]
+      exact ⟨v, hab, by rw [hc k v hab]; exact ho⟩
+  · rintro ⟨r, hr, ho⟩
+    cases hl : AL.get? s.loaded n with
+    | some p =>
+      left
+      rw [abs_of_loaded hl] at hr
+      simp only [Option.some.injEq] at hr
+      refine ⟨(n, p), ⟨AL.mem_of_get? hl, ?_, by simpa [hr] using ho⟩, rfl⟩
+      intro hs; rw [h.wf.schedNotLoaded n hs] at hl; simp at hl
+    | none =>
+      right
+      have hr0 := hr
+      rw [abs_of_not_loaded hl] at hr
+      by_cases hs : n ∈ s.sched
+      · simp [hs] at hr
+      · simp only [hs, if_false] at hr
+        refine ⟨(n, r), ⟨AL.mem_of_get? hr, by simp [isLoaded, AL.contains, hl], hs, ?_⟩, rfl⟩
+        rw [← hc n r hr0]; exact ho
+
+/-- … and fails otherwise (finding F33): a glyph whose contours hold only move/off-curve points
+is listed once loaded, not before. -/
+def f33Disk : List (String × GRec) := [("A", { outlineLoaded := true, outlineFast := false })]
+
+theorem glyphsWithOutlines_violated : ¬ OutlinesTransparent := by
+  intro h
+  have hg : Good (opened f33Disk) := (opened_good f33Disk (by decide) (by decide)).1
+  have h2 := op_commutes (opened f33Disk) (.get "A") hg trivial
+  have := (h (opened f33Disk) (stepTotal (opened f33Disk) (.get "A")) hg h2.1
+    (fun k => by rw [h2.2 k]; rfl) "A").mpr (by decide)
+  revert this
+  decide
+
+/-! ### the layer-level core of C01/C06: what an in-place save writes -/
+
+/-- After an in-place save the glyph set holds exactly the abstract content, so re-opening it
+yields the same layer — after any history. -/
+theorem save_reopen (s : State) (h : Good s) :
+    ∀ k, abs (opened (save s).disk) k = abs s k := by
+  intro k
+  simp only [abs, opened, AL.get?_nil, List.not_mem_nil, if_false]
+  exact save_disk h.wf k
+
+/-! ### non-vacuity -/
+
+def demoDisk : List (String × GRec) :=
+  [("A", { unicodes := [65], outlineLoaded := true, outlineFast := true }),
+   ("B", { unicodes := [66, 65], comps := ["A"] }),
+   ("C", { image := some "i.png" })]
+
+example : Good (opened demoDisk) := (opened_good demoDisk (by decide) (by decide)).1
+/-- delete a never-read glyph, rename another onto nothing, re-add under the old name -/
+def demoOps : List Op := [.delete "A", .rename "B" "D", .touchUni, .new "A", .setUnicodes "A" [66], .save, .delete "C"]
+example : OpsOK (abs (opened demoDisk)) demoOps := by decide
+example : visible (run (opened demoDisk) demoOps) = ["D", "A"] := by decide
+example : (run (opened demoDisk) demoOps).uni = some [(66, ["D", "A"]), (65, ["D"])] := by decide
+example : componentReferences (run (opened demoDisk) demoOps) = [("A", "D")] := by decide
 
 end DefconModel.Props.C07
